@@ -180,6 +180,7 @@ func c05HTTPSanitize(fs []c05Fld, top bool) []c05Fld {
 		if f.T.K == "string" || f.T.P {
 			f.Str = false
 		}
+		f.Env, f.EV, f.Inh = false, nil, false
 		if top && f.T.P && c05IsScalar(f.T.K) {
 			// httpc validates options/range of top-level fields with fmt.Sprint / a type switch: not for pointers
 			f.Opts, f.Rng, f.Def = nil, nil, nil
@@ -245,7 +246,7 @@ func c05GenHTTPCase(rt *rapid.T) c05HTTPCase {
 			case "header":
 				f.KS = c05Pick(rt, "hks", []string{"kebab", "title", "lower", "hdr"})
 			}
-			c05GenOptions(rt, &f)
+			c05GenOptionsBase(rt, &f)
 			f.Str = false
 			if part == "path" {
 				f.Opt = false
@@ -285,6 +286,13 @@ func c05GenHTTPCase(rt *rapid.T) c05HTTPCase {
 				for try := 0; try < 8 && len(v.L)+len(v.M) == 0; try++ {
 					v = g.plainValue(&ff.T, &ff, 1)
 				}
+				if len(v.L)+len(v.M) == 0 {
+					if f.T.K == "slice" {
+						v = c05Arr(g.plainValue(ff.T.E, nil, 1))
+					} else {
+						v = c05Obj(c05KV{K: "k", V: g.plainValue(ff.T.E, nil, 1)})
+					}
+				}
 			}
 		}
 		members = append(members, c05KV{K: key, V: v})
@@ -315,6 +323,7 @@ func c05Server() *httptest.Server {
 }
 
 func c05InterpHTTP(c c05HTTPCase) (v kit.Verdict) {
+	defer c05EnvCleanup()
 	cc := c05Case{S: c.S, D: c.D}
 	target, ok := c05Target(&cc)
 	if !ok || c.D.T != "obj" {
